@@ -123,7 +123,8 @@ def _parse_xml_string(xml_string, parser, charset=None):
                 # (not every codec maps every string back) and adds nothing.
                 root, xmlids = etree.XMLID(raw, parser)
             else:
-                root, xmlids = etree.XMLID(string.encode(charset), parser)
+                root, xmlids = etree.XMLID(string.encode(charset or 'utf-8'),
+                                                                         parser)
 
     except XMLSyntaxError as e:
         logger_invalid.error("%r in string %r", e, string)
@@ -239,6 +240,12 @@ class Soap11(XmlDocument):
             except XMLSyntaxError as e:
                 logger_invalid.error("%r in multipart request", e)
                 raise Fault('Client.XMLSyntaxError', str(e))
+
+            except (LookupError, ValueError) as e:
+                # a charset python doesn't know, parts that can't be decoded
+                logger_invalid.error("%r in multipart request", e)
+                raise Fault('Client.ValidationError',
+                                      "Invalid multipart request: %s" % (e,))
 
         ctx.in_document = _parse_xml_string(ctx.in_string, parser, charset)
 
